@@ -827,6 +827,10 @@ def run(tier):
         if r["status"] == "rec":
             not_measurable.append([family_name(r["kind"], r["key"]), r["sizes"]])
             continue
+        if r["status"] == "rejected" and r["kind"] == "rep" and r["key"] in F.MAY_BE_REJECTED:
+            # not C99 (rejected by the pinned tree): only measured where a tree accepts it
+            not_measurable.append([family_name(r["kind"], r["key"]), "rejected"])
+            continue
         if r["status"] != "linear":
             sig = signature(r, single_sig)
             by_sig.setdefault(sig, []).append(family_name(r["kind"], r["key"]))
